@@ -54,28 +54,37 @@ structure St where
   doneSessions : List Nat := []  -- sessions whose Consume returned
   setups   : List Nat := []    -- sessions whose Setup ran (log)
   cleanups : List Nat := []    -- sessions whose Cleanup ran (log)
+  hbOver   : Bool := false     -- a heartbeat was answered with an error code: the heartbeat loop of this generation has ended
   deriving Repr
 
 def isFence : Verdict → Bool
   | .fence => true
   | _ => false
 
+/-- answers after which heartbeatLoop returns (every Kafka error code; a lost connection is retried) -/
+def endsHeartbeats : Verdict → Bool
+  | .ok => false
+  | .dropped => false
+  | _ => true
+
 def step (s : St) : Ev → Except String St
   | .join m v im ig =>
     if s.fenced ∧ m ≠ 0 then .error "join: fenced member rejoined with its old identity"
     else if m ≠ 0 ∧ m ≠ s.member then .error "join: member id was not issued by the coordinator"
     else match v with
-      | .ok => .ok { s with member := im, gen := ig, fenced := false, synced := false }
-      | .fence => .ok { s with fenced := true, synced := false }
-      | _ => .ok { s with fenced := false, synced := false }
+      | .ok => .ok { s with member := im, gen := ig, fenced := false, synced := false, hbOver := false }
+      | .fence => .ok { s with fenced := true, synced := false, hbOver := false }
+      | _ => .ok { s with fenced := false, synced := false, hbOver := false }
   | .sync m g v =>
     if m ≠ s.member ∨ g ≠ s.gen then .error "sync: does not carry the identity issued by the join"
     else match v with
       | .ok => .ok { s with synced := true }
       | .fence => .ok { s with fenced := true, synced := false }
       | _ => .ok { s with synced := false }
-  | .heartbeat m g _ =>
-    if m ≠ s.member ∨ g ≠ s.gen then .error "heartbeat: does not carry the identity issued by the join" else .ok s
+  | .heartbeat m g v =>
+    if m ≠ s.member ∨ g ≠ s.gen then .error "heartbeat: does not carry the identity issued by the join"
+    else if s.hbOver then .error "heartbeat: sent after the coordinator had answered a heartbeat of this generation with an error (the session must end)"
+    else .ok { s with hbOver := endsHeartbeats v }
   | .commit m g _ =>
     if m ≠ s.member ∨ g ≠ s.gen then .error "commit: does not carry the identity issued by the join" else .ok s
   | .setup n m g =>
